@@ -44,6 +44,9 @@ CHECKS = {
     'C17': dict(cat='proof', tech='Coq proof on the construction/read-back model + correspondence through the real constructors to depth 10', ref='DESIGN.md section 6, C17',
                 text='Theorems (StackGlueProofs.v, stacks of any depth): constructing from per-layer configurations (outermost first, then the primitive) and reading them back are inverse (configs_of_constructed, rebuild_from_configs), the i-th group read back belongs to the i-th layer from the outside and the groups cover everything. Tie: stacks of depth 1..10 made of layers with same-typed pairwise distinct configurations are built through make_parameter_pack_for and through (configuration, backend) constructors; every configuration is read back through get_configuration() and the get_backend() chain and must equal what was passed in order (independent oracle: the generated tokens); a second field rebuilt from what is reported must have identical configurations, storage, dump bytes and values at sampled coordinates; all compared with the model.',
                 note='The ten generated make_parameter_pack_for overloads are exercised at every depth 1..10, not translated. ' + TB_MODEL + ' Theorems closed under the global context.'),
+    'C04': dict(cat='proof', tech='Coq proof (Flocq) + AST-read rounding callee + correspondence at half-integers', ref='DESIGN.md section 6, C04',
+                text='Theorems: rounding to integral with ties to even at the argument\'s own precision is within 1/2 of the argument, for float and for double, for every argument (lrint_half via Bnearbyint_correct / error_le_half_ulp); the layer over an arbitrary backend queries a lattice point every component of which is within 1/2 of the coordinate (nearest_closest, any N); the rounding call the code names on this run, read from clang\'s AST into Gen_Nearest.v, rounds at the coordinate precision for both coordinate types (nn_round_refines: fails to compile for std::lrintf, for which lrintf_on_double_refuted gives the witness 2.5+2^-33). Tie: nearest over identity / probe / array storage, N in 1..4, float and double, at every half-integer up to 64 and one ulp either side, half-integers +- 2^-30, the 2^23 / 2^24 / 2^52 neighbourhoods, judged by an exact-rational oracle and the model.',
+                note='std::lrint / lrintf are modelled (Bnearbyint mode_NE then Btrunc; default rounding mode assumed); the model is validated against the real functions on the correspondence inputs. ' + TB_MODEL + AX_REALS),
     'C06': dict(cat='proof', tech='Coq proof on a hand model of the byte format + byte-exact correspondence', ref='DESIGN.md section 6, C06',
                 text='Theorems (BinIOProofs.v) for every stack of the layer grammar and every well-formed field, all bit patterns: the reader inverts the writer with any bytes following (load_dump), re-dumping the loaded field gives the same bytes (dump_load_dump), every well-formed field is serialisable (dump_total). The model writer/reader (BinIO.v) is tied to field::dump / field(std::istream&) and every layer\'s read_binary / write_binary byte for byte: for each stack of the catalogue (every serialisable layer in several positions + seeded random stacks) the implementation\'s dump must equal the model\'s bytes, its load must yield the model\'s configuration and storage, and its second dump the same bytes.',
                 note='BinIO.v, Stack.v, StackGlue.v are hand-written. ' + TB_MODEL + AX_REALS),
